@@ -445,9 +445,16 @@ def step (st : Unit) (l : Line) : Step Unit :=
     | _, _, _ => bad
   | _, _ => bad
 
+/-- `invertany` / `mapuniqueany`: the same helpers instantiated with `V = any` in the harness, the values coded
+injectively as ints — the int answers must be those of `invert` / `mapunique`. -/
+def unAny (l : Line) : Line :=
+  if l.op == "invertany" then { l with op := "invert" }
+  else if l.op == "mapuniqueany" then { l with op := "mapunique" }
+  else l
+
 def kind : Kind where
   σ := Unit
   init := fun _ => some ()
-  step := step
+  step := fun st l => step st (unAny l)
 
 end GoguVerif.Kinds.C14
